@@ -97,6 +97,8 @@ def check_location(rep, files, main='t.case'):
             # the first quoted line starts at the instruction (the indentation of the line is not quoted)
             if j == 0:
                 a, b = a.lstrip(), b.lstrip()
+                if a != b and b and a.endswith(b) and a[:len(a) - len(b)].rstrip().endswith('`'):
+                    a = b  # a description (`text`, maybe begun on an earlier line) in front of the instruction is not quoted
             same = a == b or (a.strip() == '' and b.strip() == '') or \
                    (j == len(src) - 1 and b.strip() != '' and a.startswith(b.rstrip()))
             if not same:
@@ -107,7 +109,10 @@ def check_location(rep, files, main='t.case'):
 
 def check_actor_source(rep, files, main='t.case'):
     """act phase reports quote the lines of the act phase without a number: each must be a line of the file"""
+    # the report is printed line by line: a character that Python takes as a line boundary (form feed, U+2028, ...)
+    # inside an act phase line shows as a line break in the quotation
     fl = set(l.strip() for f in files.values() for l in file_lines(f))
+    fl |= set(p.strip() for f in files.values() for p in f.splitlines())
     return ['act phase report quotes %r which is not a line of the case' % s
             for s in rep['actor_source'] if s.strip() not in fl and s.strip() != '']
 
